@@ -308,7 +308,7 @@ class Check:
                         self.discharged.append(nme)
         if self.tier == 'thorough' and ok and names and not problems:
             # independent re-check of the compiled property file and everything it depends on, with the axiom listing
-            to = int(os.environ.get('VERIF_COQCHK_TIMEOUT', '3600'))
+            to = int(os.environ.get('VERIF_COQCHK_TIMEOUT', '1500'))
             r = subprocess.run(['timeout', str(to), 'coqchk', '-silent', '-o', '-Q', str(THEORIES), 'Hpotk', f'Hpotk.Properties.{self.pid}'],
                                cwd=COQ, capture_output=True, text=True)
             out = r.stdout + r.stderr
